@@ -72,6 +72,7 @@ fn build(u: &mut Unstructured) -> arbitrary::Result<Case> {
         count_u32: bool::arbitrary(u)?,
         end_magic: bool::arbitrary(u)?,
         zoom_count_prefix: bool::arbitrary(u)?,
+        no_summary: u.int_in_range(0..=3)? == 0,
     };
     Ok(Case { chroms, content: Content::Wig { blocks }, params })
 }
